@@ -29,6 +29,10 @@ def arr(rs, container="array"):
         return [int(r[0]) for r in rs]
     if container == "int" and all(r[1] == 1 for r in rs):
         return np.array([r[0] for r in rs], dtype=np.int64)
+    if container in ("int8", "uint8", "int16", "uint16", "int32") and all(r[1] == 1 for r in rs):
+        info = np.iinfo(container)          # narrow integer arrays (sample indices, hours, ...) when the values fit
+        if all(info.min <= r[0] <= info.max for r in rs):
+            return np.array([r[0] for r in rs], dtype=container)
     return np.array([fl(r) for r in rs], dtype=float)
 
 
@@ -875,6 +879,14 @@ def ex_whist(c):
         import pandas as pd
         df = pd.DataFrame({0: np.asarray(cx, dtype=float), 1: np.asarray(cy, dtype=float)})
         w = Weaver.from_dataframe(df)
+    elif ctor == "df_named":                # named columns in another order, with an unrelated third column
+        import pandas as pd
+        df = pd.DataFrame({"other": np.arange(len(cy), dtype=float), "v": np.asarray(cy, dtype=float), "t": np.asarray(cx, dtype=float)})
+        w = Weaver.from_dataframe(df, x_col="t", y_col="v")
+    elif ctor == "df_swapped":              # positional labels given explicitly, y stored before x
+        import pandas as pd
+        df = pd.DataFrame({0: np.asarray(cy, dtype=float), 1: np.asarray(cx, dtype=float)})
+        w = Weaver.from_dataframe(df, x_col=1, y_col=0)
     elif ctor == "none_x":                  # x omitted: abscissae 0, 1, 2, ...
         w = Weaver(None, cy)
     else:
